@@ -75,6 +75,50 @@ pub fn run_text(w: &World, family: &str, text: &str, path: Option<&Path>, with_o
 }
 
 // ------------------------------------------------------------------------------------------
+// observations outside the statement (never judged, only logged as outcome classes)
+
+pub fn observations(w: &World, l: &mut Local) -> Value {
+    use hickory_proto::rr::RData;
+    let mut out = serde_json::Map::new();
+    let mut txt_of = |name: &str, text: &str| {
+        let r = catch(|| Parser::new(text.to_string(), None, Some(w.horigin.clone())).parse());
+        let shown = match r {
+            Err(p) => format!("panic: {}", p.msg),
+            Ok(Err(e)) => format!("error: {e}"),
+            Ok(Ok((o, m))) => {
+                let mut v = vec![format!("origin={o}")];
+                for rs in m.values() {
+                    for r in rs.records_without_rrsigs() {
+                        match &r.data {
+                            RData::TXT(t) => v.push(format!("{} TXT {:?}", r.name, t.txt_data.iter().map(|s| String::from_utf8_lossy(s).to_string()).collect::<Vec<_>>())),
+                            d => v.push(format!("{} {:?}", r.name, d)),
+                        }
+                    }
+                }
+                v.join("; ")
+            }
+        };
+        l.outcome(&format!("obs:{name}"));
+        out.insert(name.to_string(), json!({"text": text, "loaded": shown}));
+    };
+    // escapes in an UNQUOTED string are kept verbatim (RFC 1035 would unescape them)
+    txt_of("unquoted-string-with-escape", "a 1 IN TXT a\\\"b\\\\c\n");
+    // \DDD in a quoted string is not the octet DDD
+    txt_of("quoted-string-with-DDD", "a 1 IN TXT \"x\\065y\"\n");
+    // a quoted string may span lines
+    txt_of("quoted-string-across-lines", "a 1 IN TXT \"x\ny\"\n");
+    // a relative $ORIGIN argument is not completed with the current origin
+    txt_of("relative-origin-directive", "$ORIGIN sub\na 1 IN A 192.0.2.1\n");
+    // parentheses before the RDATA
+    txt_of("parentheses-before-type", "a ( 1 IN ) A 192.0.2.1\n");
+    // TTL with units (BIND extension)
+    txt_of("ttl-with-units", "a 1h30m IN A 192.0.2.1\n");
+    // odd number of hex digits in a DS digest
+    txt_of("ds-odd-hex", "a 1 IN DS 1 8 2 abc\n");
+    Value::Object(out)
+}
+
+// ------------------------------------------------------------------------------------------
 // (1) short strings
 
 pub fn short_strings(ctx: &Ctx, w: &World, max_len: usize) -> u64 {
@@ -186,6 +230,7 @@ pub fn seeds(w: &World, singles: &[Entry], sub: &[Entry]) -> Vec<Seed> {
         what: "RFC 1035 section 5.3 example (abridged, TTL added)".into(),
     });
     out.push(Seed { text: "$ORIGIN ex.test.\n$TTL 1h\n$INCLUDE inc.zone ; c\nwww A 192.0.2.1\n".into(), what: "$INCLUDE / $TTL with unit".into() });
+    out.push(Seed { text: "s 1 IN SVCB 1 . port=1 alpn=h2 key65400=x\nt 1 IN HTTPS 0 s\n".into(), what: "SVCB/HTTPS with one-character parameter values".into() });
     out
 }
 
